@@ -354,7 +354,10 @@ tail:
             while (captured < hi) {
                 CapState cs2 = cap_save(s);
                 next_text = peg_rule(s, rule_a, text);
-                if (!next_text || ((next_text == text) && (hi == UINT32_MAX))) {
+                /* An unbounded repetition stops at an empty match (it would repeat forever), but only
+                 * once the required number of repetitions has been reached: an empty match can be
+                 * repeated as often as needed, as it is when the upper bound is finite. */
+                if (!next_text || ((next_text == text) && (hi == UINT32_MAX) && (captured >= lo))) {
                     cap_load(s, cs2);
                     break;
                 }
